@@ -3,9 +3,9 @@
 #  (1) the recorded patch is exactly the worktree's diff, (2) the demonstration fails with it,
 #  (3) the repository's own test suite still passes with it, (4) the demonstration passes without it.
 # Then copy patch.diff, demo/, meta.json to /verif/seeded/<name>/ with a confirm.log.
-# usage: tools/seed_confirm.sh <name> [demo-subcommand: run|test]
+# usage: [WT=<worktree>] [DEMO_CMD=<shell command run in mutation/demo>] tools/seed_confirm.sh <name> [cargo subcommand: run|test|...]
 set -u
-name=$1; W=/tmp/mut_$name; M=$W/mutation; V=/verif
+name=$1; W=${WT:-/tmp/mut_$name}; M=$W/mutation; V=/verif
 export CARGO_NET_OFFLINE=true CARGO_TARGET_DIR=$W/target
 out=$V/seeded/$name; mkdir -p $out; log=$out/confirm.log; : > $log
 say() { echo "$@" | tee -a $log; }
